@@ -146,8 +146,8 @@ theorem output_valid_verbose (cfg : Config) (hp : VerbosePrintNA cfg) (env : Env
   classes_valid_verbose cfg hp env ws st h hseg hws
 
 /-- **C07 (validity with repetition conversion, all inputs, any anchors)** `-r` with positive thresholds, every subset of the class
-options × capturing groups × `-e` × `-i` × any anchors, plain printing; stored test cases of at most 1000 graphemes (a larger count
-is refused by the regex crate: the pattern `a{1001}` is outside this theorem and compared per input): whichever of its three candidates
+options × capturing groups × `-e` × `-i` × any anchors, plain printing; stored test cases of at most 1000 graphemes (the Spec model of `regex-syntax` reads counts up to 1000; the real crate accepts `a{1001}` and more, up to its
+compiled-size limit, which is not modelled: such inputs are outside this theorem and compared per input): whichever of its three candidates
 `RegExp::from` keeps, the returned text — with `x{m,n}`, `(?:unit){m,n}` and nested repetitions — is accepted by the model of
 `Regex::new` -/
 theorem output_valid_with_repetitions (cfg : Config) (hp : RepPrintNA cfg) (env : Env) (ws : List Str) (st : Stages)
